@@ -52,7 +52,8 @@ def run_case(case, want_trace=False):
     from aiocoap import GET, Message, error
 
     subs = case["subs"]
-    net = SimNet(rng_seed=case.get("rng", 0))
+    # fates: only "delivered after 1 ms" or "sendmsg() refused by the kernel" (reported synchronously from inside the send call)
+    net = SimNet(fates=case.get("fates", ()), rng_seed=case.get("rng", 0))
     net._logger.setLevel(100)
     vio = []
     labels = set()
@@ -115,7 +116,12 @@ def run_case(case, want_trace=False):
         for e in net.events:
             if e[1] == "submitted":
                 submitted.setdefault(e[2], (e[0], len(submitted)))
-        errors = [(e[0], e[3]) for e in net.events if e[1] == "icmp-error"]
+        # transport errors reported for a remote: ICMP-style through the error queue, or a send refused by the kernel
+        # (time, remote, wire sequence number of the refused datagram or None)
+        errors = [(e[0], e[3], None) for e in net.events if e[1] == "icmp-error"]
+        errors += [(w["t"], w["dst"], w["seq"]) for w in net.wire if w.get("refused") and w["src"] == A]
+        if any(sq is not None for _, _, sq in errors):
+            labels.add("send-refused")
         wire = net.wire_fields()
         first = {}  # k -> (t_first, mid, type, remote)
         for w in wire:
@@ -148,10 +154,19 @@ def run_case(case, want_trace=False):
                     if g["type"] in (R.ACK, R.RST) and g["mid"] == mid:
                         end = (d["t"], "ack" if g["type"] == R.ACK else "rst")
                         break
-            for te, r in errors:
-                if r == dst and t0 - EPS <= te < end[0] - EPS:
+            for te, r, sq in errors:
+                # (a refused send only concerns exchanges that were already under way, or whose own datagram it was)
+                if r == dst and t0 - EPS <= te < end[0] - EPS and (sq is None or sq >= first[k][4]):
                     end = (te, "icmp")
             ends[k] = end
+        # an exchange that has ended is over: no further copy of its message may go out (a zombie exchange would keep
+        # the remote's single slot occupied)
+        for k, (t0, mid, typ, dst, _) in first.items():
+            if typ != R.CON:
+                continue
+            late = [w for w in wire if w["src"] == A and w["dst"] == dst and w["fields"] is not None and w["fields"]["mid"] == mid and w["fields"]["type"] == R.CON and w["t"] > ends[k][0] + EPS]
+            if late:
+                vio.append(V("C14/retransmission-after-exchange-ended", "CON %d to %s: exchange ended at %.6f by %s, yet a copy was sent at %.6f" % (k, dst, ends[k][0], ends[k][1], late[0]["t"])))
         per_remote = {}
         for k, (t0, mid, typ, dst, seq) in first.items():
             if typ == R.CON:
@@ -209,14 +224,16 @@ def run_case(case, want_trace=False):
                 if sp["kind"] == "req":
                     if outcome[0] != "exception" or not isinstance(outcome[1], error.Error):
                         vio.append(V("C14/held-back-message-forgotten", "CON request %d to %s never transmitted and its future is %s %r" % (k, dst, outcome[0], outcome[1])))
-                    elif failed_ahead is None and not any(r == dst for _, r in errors):
+                    elif failed_ahead is None and not any(r == dst and te >= ts - EPS for te, r, _ in errors):
                         vio.append(V("C14/failed-without-cause", "CON request %d never transmitted, failed with %r though nothing ahead of it failed" % (k, outcome[1])))
         # every request future: done, unless it is a NON (or acked CON) whose response never comes
         for k, it in items.items():
             kind, val = ReqLog.outcome(it)
             sp = subs[k]
             if kind == "pending":
-                if sp["con"] and not (k in ends and ends[k][1] == "ack" and sp["reaction"] not in ("piggy", "ack_sep")):
+                # (the fate list is shared: a "refused" fate consumed by the peer's own datagram is simply a lost reply)
+                lost_from_peer = any(w["src"] == REMOTES[sp["remote"]] and w["fate"][0] in ("senderr", "drop") for w in net.wire)
+                if sp["con"] and not lost_from_peer and not (k in ends and ends[k][1] == "ack" and sp["reaction"] not in ("piggy", "ack_sep")):
                     vio.append(V("C14/request-hangs", "request %d %r" % (k, sp)))
             elif kind == "exception" and not isinstance(val, error.Error):
                 vio.append(V("C14/non-library-error/" + type(val).__name__, repr(val)))
@@ -268,7 +285,15 @@ def _case(draw):
             sp["hdelay"] = draw(st.sampled_from([0.15, 0.3, 1.0]))
         subs.append(sp)
     errors = draw(st.lists(st.fixed_dictionaries({"t": st.sampled_from([0.0005, 0.1, 0.7, 2.0]), "remote": st.integers(0, 2)}), max_size=1))
-    return {"subs": subs, "errors": errors, "rng": draw(st.integers(0, 99))}
+    case = {"subs": subs, "errors": errors, "rng": draw(st.integers(0, 99))}
+    if draw(st.integers(0, 2)) == 0:
+        # the kernel refuses one or two of the datagrams A tries to send (a first transmission, a retransmission, an ACK ...)
+        fates = [["deliver", 0.001]] * draw(st.integers(0, 12))
+        fates.insert(draw(st.integers(0, len(fates))), ["senderr", draw(st.sampled_from([101, 13]))])
+        if draw(st.integers(0, 3)) == 0:
+            fates.insert(draw(st.integers(0, len(fates))), ["senderr", 101])
+        case["fates"] = fates
+    return case
 
 
 def selftest():
@@ -293,7 +318,7 @@ def selftest():
 RULE = (
     "2-8 submissions to 3 raw remotes (two share an IP): CON/NON requests of a real aiocoap context and, in the server role, separate CON responses produced by a slow "
     "handler; per exchange a generated outcome (piggybacked ACK / empty ACK + later response / RST after 0-1.2 s, or silence => time-out with ACK_TIMEOUT 0.5-1 s, "
-    "ACK_RANDOM_FACTOR 1, MAX_RETRANSMIT 0-2) and optionally an ICMP-style error for a remote. Oracle (queue model over wire timestamps on the virtual clock): open intervals "
+    "ACK_RANDOM_FACTOR 1, MAX_RETRANSMIT 0-2) and optionally an ICMP-style error for a remote or one or two datagrams whose sendmsg() the kernel refuses (error reported synchronously from inside the send call). Oracle (queue model over wire timestamps on the virtual clock): open intervals "
     "[first transmission, ACK/RST arrival | give-up | error) of different CONs to one remote never overlap; first transmissions to one remote are in submission order; a held-back "
     "CON is first sent at exactly the instant the remote becomes free after an ACK/RST; NONs and other remotes are sent at submission time; every CON request is transmitted or "
     "fails with aiocoap.error.Error (only when something ahead of it failed or an error was reported); nothing hangs. Non-trivial = >= 2 CONs were held back behind one remote. Distinct = SHA-1 of the case."
